@@ -9,6 +9,7 @@ import (
 	"flag"
 	"fmt"
 	"os"
+	"regexp"
 	"runtime"
 	"runtime/debug"
 	"sort"
@@ -138,7 +139,7 @@ func (v violation) Key() string { return v.Kind + "|" + v.Format + "|" + v.Sub }
 func matchKnown(known map[string]vh.Finding, v violation) (vh.Finding, bool) {
 	for pred, f := range known {
 		p := strings.SplitN(pred, "|", 3)
-		if len(p) != 3 || p[0] != v.Kind || p[2] != v.Sub {
+		if len(p) != 3 || p[0] != v.Kind || !globMatch(p[2], v.Sub) {
 			continue
 		}
 		if p[1] == "*" {
@@ -154,6 +155,16 @@ func matchKnown(known map[string]vh.Finding, v violation) (vh.Finding, bool) {
 }
 
 var repMu sync.Mutex // guards the report and every collection below
+
+// globMatch: '*' in a predicate's sub-key stands for any run of characters other than '|'.
+func globMatch(pat, s string) bool {
+	if !strings.Contains(pat, "*") {
+		return pat == s
+	}
+	re := "^" + strings.ReplaceAll(regexp.QuoteMeta(pat), `\*`, `[^|]*`) + "$"
+	ok, _ := regexp.MatchString(re, s)
+	return ok
+}
 
 type collector struct {
 	mu     sync.Mutex
@@ -247,8 +258,15 @@ func (k *collector) judge(c Case, r runResult) {
 
 // ---------------------------------------------------------------- main
 
+// realStderr: third-party code (cursorio.TextWriter) prints "FATAL: …" to os.Stderr before it panics;
+// os.Stderr is pointed at /dev/null and the harness' own messages go to the real one.
+var realStderr = os.Stderr
+
 func main() {
 	flag.Parse()
+	if dn, err := os.OpenFile(os.DevNull, os.O_WRONLY, 0); err == nil {
+		os.Stderr = dn
+	}
 	debug.SetGCPercent(200)
 	if *child {
 		childMain()
@@ -259,13 +277,13 @@ func main() {
 	rep := vh.NewReport(*prop, *tier, seed, rule)
 	fs, err := vh.LoadFindings(*findings)
 	if err != nil {
-		fmt.Fprintln(os.Stderr, "findings:", err)
+		fmt.Fprintln(realStderr, "findings:", err)
 		os.Exit(2)
 	}
 	k := &collector{rep: rep, known: vh.KnownKeys(fs, *prop), seen: map[string]int{}}
 	corp, err := loadCorpus()
 	if err != nil {
-		fmt.Fprintln(os.Stderr, "corpus:", err)
+		fmt.Fprintln(realStderr, "corpus:", err)
 		os.Exit(2)
 	}
 	for _, f := range allFormats {
@@ -293,7 +311,7 @@ func main() {
 		case "C15":
 			e.runSchedules()
 		default:
-			fmt.Fprintln(os.Stderr, "unknown -prop", *prop)
+			fmt.Fprintln(realStderr, "unknown -prop", *prop)
 			os.Exit(2)
 		}
 		if !*nomodel && *prop == "C05" {
@@ -302,7 +320,7 @@ func main() {
 	}
 	k.flush()
 	if err := rep.Write(*out); err != nil {
-		fmt.Fprintln(os.Stderr, err)
+		fmt.Fprintln(realStderr, err)
 		os.Exit(2)
 	}
 	fmt.Printf("c05x[%s]: %d evaluations, %d distinct non-trivial, %d compared with the wrapper model, %d failures, %d known\n", *prop, rep.Evaluations, rep.Distinct, rep.Compared, rep.Failures(), len(rep.Cases)-rep.Failures())
@@ -314,7 +332,7 @@ func main() {
 func (e *engine) replayFile(path string) {
 	b, err := os.ReadFile(path)
 	if err != nil {
-		fmt.Fprintln(os.Stderr, err)
+		fmt.Fprintln(realStderr, err)
 		os.Exit(2)
 	}
 	var lines []string
